@@ -310,7 +310,12 @@ def hist_replay(payload):
     for r in res:
         if "error" in r:
             raise Inconclusive(r["error"])
-    return any(not r["ok"] for r in res)
+    if any(not r["ok"] for r in res):
+        return True
+    if payload["run_cmd"][0] == "conc-run" and payload.get("_attempt", 0) < 3:
+        # scheduling-dependent behaviour: allow a few attempts to see it again
+        return hist_replay(dict(payload, _attempt=payload.get("_attempt", 0) + 1))
+    return False
 
 
 def storage_stage(rep, stage, tcfg, hist_files, mode):
@@ -1120,6 +1125,131 @@ def exterr_stage(rep):
     rep.stages["c18-exterr"] = summ
 
 
+def check_C16(rep):
+    rep.rule = ("(a) CommitConc.tla (PlusCal transcription of the goroutine skeleton of FastCommit / NondeterministicFastCommit / BatchPreload: "
+                "closed job queue, result queue, done channel, deferred wait-then-close) is model-checked for every interleaving of 1..3 workers x 3-4 "
+                "jobs x an encoding error or a failing ledger call at any position: no deadlock, the call returns (liveness under weak fairness), "
+                "no send on a closed channel, the result queue never blocks, the outcome is a function of the inputs (SeqEqual); TLC emits every "
+                "distinct arrival order of results; (b) each emitted schedule is forced on the real functions through the blocking verif hook and "
+                "compared with the one-worker run (returns, same error, same registers / cache keys / write-set keys; convergence after retry), plus "
+                "free-running repetitions with jitter and 2..64 workers and larger job counts; (c) 16 client goroutines with private storages run "
+                "map / array / commit workloads concurrently: the pool hook events must be accepted by Pools.tla (no hand-out of an owned object, no use "
+                "after put, no double put) and each client's results and registers must equal its solo run; (d) the same workloads run under the Go "
+                "race detector without the event hook (GOMAXPROCS 2, 4, 16): a race report is a violation")
+    quick = rep.tier == "quick"
+    nj = 3 if quick else 4
+    combos = []
+    for mode in ("det", "relaxed"):
+        for w in (1, 2, 3):
+            for (ee, fc) in [(0, 0)] + [(k, 0) for k in range(1, nj + 1)] + [(0, k) for k in range(1, nj + 1)]:
+                if quick and (ee > 2 or fc > 2):
+                    continue
+                combos.append((mode, w, ee, fc))
+
+    def run_one(c):
+        mode, w, ee, fc = c
+        name = "c16-cc-%s-%d-%d-%d" % (mode, w, ee, fc)
+        d = vlib.tlc_dir(name)
+        text = open(os.path.join(d, "CommitConc.cfg")).read()
+        for k, v in {"W": w, "NJobs": nj, "Cap": nj, "Mode": '"%s"' % mode, "EncErr": ee, "FailCall": fc, "EmitSchedules": "TRUE"}.items():
+            text = re.sub(r"(?m)^(\s*%s\s*=\s*).*$" % k, lambda m: m.group(1) + str(v), text)
+        open(os.path.join(d, "CommitConc.cfg"), "w").write(text)
+        so = os.path.join(d, "stdout.txt")
+        r = vlib.run_tlc(d, "CommitConc.tla", "CommitConc.cfg", workers=2, timeout=900, stdout_file=so, heap="2g")
+        lines = list(set(vlib.emitted_lines(so)))
+        shutil.rmtree(d, ignore_errors=True)
+        return c, r, lines
+    scheds = set()
+    with concurrent.futures.ThreadPoolExecutor(max_workers=6) as ex:
+        for c, r, lines in ex.map(run_one, combos):
+            if not r.ok:
+                raise Inconclusive("CommitConc %s failed in the MODEL: %s" % (c, r.out[-1500:]))
+            rep.add_model("CommitConc mode=%s W=%d NJobs=%d EncErr=%d FailCall=%d (all interleavings, liveness)" % (c[0], c[1], nj, c[2], c[3]), r)
+            for s in lines:
+                j = json.loads(s)
+                scheds.add(json.dumps({"w": j["w"], "n": j["n"], "mode": j["mode"], "encerr": j["encerr"], "failcall": j["failcall"], "order": j["order"]}))
+    # larger job counts (free-running only): more jobs than workers + queue slots, faults early and late
+    extra = []
+    for mode in ("det", "relaxed"):
+        for (w, n) in ((2, 6), (3, 9), (2, 12)) if quick else ((2, 6), (3, 9), (2, 12), (4, 17), (7, 30)):
+            for (ee, fc) in ((0, 0), (0, 1), (0, 2), (0, n), (2, 0), (n, 0)):
+                extra.append(json.dumps({"w": w, "n": n, "mode": mode, "encerr": ee, "failcall": fc, "order": []}))
+    allc = sorted(scheds) + extra
+    if quick and len(allc) > 400:
+        allc = [c for c in allc if frac(vlib.stable_hash(c) + rep.seed, 1, 1 + len(allc) // 400)] + extra
+    files = [os.path.join(vlib.scratch(), "c16-sched-%d.ndjson" % k) for k in range(PARTS)]
+    fh = [open(f, "w") for f in files]
+    for f in fh:
+        f.write(json.dumps({"cfg": {}}) + "\n")
+    for i, c in enumerate(allc):
+        fh[i % PARTS].write(c + "\n")
+    for f in fh:
+        f.close()
+    rep.sample({"schedule": json.loads(allc[0])})
+    rep.distinct.update(range(len(allc)))
+
+    def sig(rec, trace, why, hist):
+        return "conc:%s:%s" % (rec["case"]["mode"], why)
+    hist_stage(rep, "c16-schedules", ["conc-run", "-seed", str(rep.seed), "-free", "2" if quick else "6"], "conc", "ConcTrace.tla", "ConcTrace_C16.cfg",
+               files, "full", "parallel commit differs from the one-worker run", sigfn=sig)
+    rep.stages["c16-schedules"]["schedules_from_tlc"] = len(scheds)
+    # (c) pools
+    exe = vlib.build_harness()
+    outs = []
+    for k in range(2 if quick else 8):
+        out = os.path.join(vlib.scratch(), "c16-pools-trace-%d.ndjson" % k)
+        p = subprocess.run([exe, "pools-run", "-out", out, "-seed", str(rep.seed * 100 + k), "-g", "16", "-steps", "120" if quick else "400"],
+                           capture_output=True, text=True, env=dict(os.environ, GOMAXPROCS=str([16, 4, 2, 8][k % 4])))
+        if p.returncode != 0:
+            raise Inconclusive("pools-run failed: " + p.stderr[-2000:])
+        outs.append(out)
+    results = vlib.validate_traces(outs, "Pools.tla", "Pools_C16.cfg", "c16-pools-tv")
+
+    def describe(res, rec, trace, why):
+        part = int(re.search(r"-(\d+)$", res["dir"]).group(1))
+        s = "pools:%s:%s" % (rec.get("kind") or rec["ev"], why)
+        return s, "pool discipline / client independence violated at event %s %s (goroutine %s, object %s): %s" % (rec["ev"], rec.get("kind"), rec.get("g"), rec.get("o"), why), \
+            {"engine": "pools", "seed": rep.seed * 100 + part, "steps": 120 if quick else 400, "trace": trace[-30:]}
+    nrec = handle_results(rep, results, "Pools.tla", "Pools_C16.cfg", describe, pools_replay, "c16-pools")
+    rep.traces += len(outs)
+    rep.stages["c16-pools"] = {"runs": len(outs), "records": nrec}
+    # (d) race detector on free-running executions (no event hook: it would add synchronisation)
+    rexe = vlib.build_harness(race=True)
+    races = 0
+    runs = 0
+    for gmp in (["2", "16"] if quick else ["2", "4", "16", "7"]):
+        for cmd in ([rexe, "pools-run", "-out", os.path.join(vlib.scratch(), "race-p.ndjson"), "-seed", str(rep.seed), "-events=false", "-g", "16", "-steps", "100" if quick else "300"],
+                    [rexe, "conc-run", "-in", files[0], "-out", os.path.join(vlib.scratch(), "race-c.ndjson"), "-seed", str(rep.seed), "-free", "2"]):
+            runs += 1
+            p = subprocess.run(cmd, capture_output=True, text=True, env=dict(os.environ, GOMAXPROCS=gmp, GORACE="halt_on_error=0"), timeout=1800)
+            if "WARNING: DATA RACE" in p.stderr:
+                races += 1
+                s = "race:%s" % cmd[1]
+                if not any(v["signature"] == s for v in rep.violations):
+                    path = vlib.write_replay(rep.prop, {"property": rep.prop, "engine": "race", "cmd": cmd[1:], "GOMAXPROCS": gmp, "signature": s,
+                                                        "report": p.stderr[:6000]})
+                    rep.violations.append({"signature": s, "what": "Go race detector report during %s (GOMAXPROCS=%s)" % (cmd[1], gmp), "replay": path})
+            elif p.returncode != 0:
+                raise Inconclusive("race run failed (%d): %s" % (p.returncode, p.stderr[-2000:]))
+    rep.stages["c16-race"] = {"runs": runs, "race_reports": races}
+    rep.exhaustive = False
+
+
+def pools_replay(payload):
+    exe = vlib.build_harness()
+    d = os.path.join(vlib.scratch(), "replay-%d" % random.randrange(1 << 30))
+    os.makedirs(d)
+    for attempt in range(3):
+        out = os.path.join(d, "t%d.ndjson" % attempt)
+        p = subprocess.run([exe, "pools-run", "-out", out, "-seed", str(payload["seed"]), "-g", "16", "-steps", str(payload["steps"])], capture_output=True, text=True)
+        if p.returncode != 0:
+            raise Inconclusive("pools-run failed")
+        res = vlib.validate_traces([out], payload["trace_module"], payload["trace_cfg"], os.path.basename(d) + "-tv%d" % attempt)
+        if any(not r["ok"] for r in res):
+            return True
+    return False
+
+
 def check_C20(rep):
     rep.rule = ("TLC enumerates every healthy labelled reference forest over N slabs (N=4: 125, N=5: 1296) with two owner patterns and every "
                 "single corruption of the four kinds (referenced slab deleted - as a pending deletion, a committed deletion, or missing from the "
@@ -1250,7 +1380,7 @@ def check_C04(rep):
 def replay(rep, path):
     payload = json.load(open(path))
     eng = payload.get("engine")
-    fn = {"hist": hist_replay, "storage-random": storage_random_replay, "multirun": multirun_replay, "bytes": bytes_replay, "crash": crash_replay}.get(eng)
+    fn = {"hist": hist_replay, "storage-random": storage_random_replay, "multirun": multirun_replay, "bytes": bytes_replay, "crash": crash_replay, "pools": pools_replay}.get(eng)
     if fn is None:
         raise Inconclusive("unknown engine in replay file: %s" % eng)
     if fn(payload):
@@ -1280,5 +1410,6 @@ CHECKS = {
     "C18": check_C18,
     "C14": check_C14,
     "C15": check_C15,
+    "C16": check_C16,
     "C20": check_C20,
 }
